@@ -90,7 +90,7 @@ class Gen:
         r = self.rng
         t = "\t" * ind
         for _ in range(n):
-            k = r.randrange(16)
+            k = r.randrange(17)
             if k <= 2:
                 nm = self.name(env)
                 if env.here(nm):
@@ -219,6 +219,26 @@ class Gen:
                 env.declare(s, "type")
                 env.declare(v, "other")
                 L += ["%stype %s struct{ %s int }" % (t, s, f), "%s%s := %s{%s: %s}" % (t, v, s, f, "3"), "%s_ = %s.%s" % (t, v, f)]
+            elif k == 14 and env.free("int"):
+                # a local type embedded in another local struct: the field is named after the type
+                a = self.name(env)
+                m = self.name(env, avoid=(a,))
+                v = self.name(env, avoid=(a, m))
+                if env.here(a) or env.here(m) or env.here(v) or "_" in (a, m, v):
+                    continue
+                env.declare(a, "type")
+                env.declare(m, "type")
+                env.declare(v, "other")
+                ptr = r.random() < 0.4
+                alias = r.random() < 0.3
+                if alias:
+                    self.nlabel += 1
+                    L += ["%stype base%d struct{ Z int }" % (t, self.nlabel), "%stype %s = base%d" % (t, a, self.nlabel)]
+                else:
+                    L.append("%stype %s struct{ Z int }" % (t, a))
+                L += ["%stype %s struct{ %s%s }" % (t, m, "*" if ptr else "", a),
+                      "%s%s := %s{%s: %s%s{Z: 2}}" % (t, v, m, a, "&" if ptr else "", a),
+                      "%s_ = %s.%s.Z + %s.Z" % (t, v, a, v)]
             elif k == 13 and depth > 0 and env.free("int"):
                 # closure value that recurses through its own name
                 nm = self.name(env)
